@@ -547,7 +547,7 @@ func ReadAllAnnotations(
 		for _, imp := range file.Imports {
 			var imported *types.Package
 			if imp.Path != nil {
-				imported = importedByPath[strings.Trim(imp.Path.Value, `"`)]
+				imported = importedByPath[util.ImportPath(imp)]
 			}
 			imports.Add(imp, imported)
 		}
